@@ -91,8 +91,19 @@ func (p *c04Proxy) loop() {
 			c.Close()
 			continue
 		case c04Reset:
+			// reset AFTER the first bytes of a command arrived: a reset during the handshake
+			// would count as a dial error, and 160 of those in a row open go-redis' dial
+			// circuit, whose repair goroutine would be stranded in the case's bubble
+			p.conns[c] = struct{}{}
 			p.mu.Unlock()
-			c04Rst(c)
+			go func() {
+				buf := make([]byte, 64)
+				c.Read(buf)
+				c04Rst(c)
+				p.mu.Lock()
+				delete(p.conns, c)
+				p.mu.Unlock()
+			}()
 			continue
 		case c04Hole:
 			p.conns[c] = struct{}{}
@@ -132,8 +143,11 @@ func (p *c04Proxy) loop() {
 		p.conns[b] = struct{}{}
 		p.mu.Unlock()
 		done := func(x, y net.Conn) {
-			x.Close()
-			y.Close()
+			// b is the proxy's own connection to miniredis: reset it, so that it leaves no
+			// TIME_WAIT socket behind (thousands of them exhaust the loopback ports)
+			c04Rst(b)
+			c.Close()
+			_, _ = x, y
 			p.mu.Lock()
 			delete(p.conns, x)
 			delete(p.conns, y)
@@ -180,6 +194,7 @@ var (
 	c04Px      *c04Proxy
 	c04Jobs    = make(chan func())
 	c04JobDone = make(chan struct{})
+	c04Rotations int
 )
 
 const c04Key = "c04-apps"
@@ -362,15 +377,21 @@ func c04RpcInterp(t *testing.T, c c04RpcCase) (v kit.Verdict) {
 		}
 		// every fault costs the client dozens of short-lived loopback connections; when the
 		// machine runs out of ephemeral ports for a moment, wait instead of giving up
-		for attempt := 0; attempt < 4; attempt++ {
-			if healthy = c04Drain(); healthy {
-				break
-			}
-			time.Sleep(5 * time.Second)
+		if healthy = c04Drain(); !healthy {
+			// the client behind this address is beyond repair (e.g. its dial circuit is open and
+			// the goroutine that would close it again belongs to a finished bubble): the
+			// client manager keys clients by address, so a new proxy port gives a new client
+			c04Px.ln.Close()
+			c04Px = c04NewProxy(c04Mini.Addr())
+			c04Rotations++
+			healthy = c04Drain()
 		}
 	})
 	if !healthy {
 		return kit.Verdict{Excluded: true, Classes: []string{"harness:store-not-ready"}}
+	}
+	if c04Rotations > 0 {
+		classes["harness:proxy-rotated-earlier"] = true
 	}
 	defer c04Outside(func() {
 		c04Px.setMode(c04Ok, 0)
@@ -793,6 +814,6 @@ func c04RpcGen(rt *rapid.T) c04RpcCase {
 }
 
 func TestVerif_C04_rpc(t *testing.T) {
-	kit.Run(t, "C04", "rpc-auth", kit.Opts{Quick: 400, Thorough: 4800}, c04RpcGen,
+	kit.Run(t, "C04", "rpc-auth", kit.Opts{Quick: 400, Thorough: 4000}, c04RpcGen,
 		func(c c04RpcCase) kit.Verdict { return c04RpcInterp(t, c) })
 }
